@@ -4,7 +4,6 @@ import (
 	"fmt"
 	"go/types"
 
-	"verif/engine/smt"
 )
 
 // reader returns element i (relative index, width 64) of a snapshot of a slice's current contents.
@@ -314,34 +313,46 @@ func (ex *Exec) accountAllocN(et types.Type, n *T) {
 
 // ---------- maps ----------
 
+// MapState: a Go map as a guarded association list (newest entry last). lookup(k) scans from the newest entry:
+// the first entry with guard && key == k decides presence and value. Pure bit-vector terms, no array theory.
+type MapEntry struct {
+	Guard, Key, Pres *T
+	Val   Value
+}
+
 type MapState struct {
-	Present, Vals, Count *T
+	E     []MapEntry
+	Count *T
 }
 
 func (ex *Exec) makeMap(t types.Type) *MapV {
 	mt := t.Underlying().(*types.Map)
 	kw := ex.widthOf(mt.Key())
-	vw := ex.widthOf(mt.Elem())
-	if kw <= 0 || vw < 0 {
-		panic(unsupported("map type " + t.String()))
+	if kw <= 0 {
+		panic(unsupported("map key type " + mt.Key().String()))
 	}
-	C := ex.C
 	ex.nobj++
 	o := &Obj{ID: ex.nobj, Site: "makemap"}
 	st := &Cell{Obj: o, T: t}
 	o.Root = st
-	var defv *T
-	if vw == 0 {
-		defv = C.False
-	} else {
-		defv = C.Const(0, vw)
+	st.V = MapState{Count: ex.k64(0)}
+	return &MapV{KeyW: kw, St: st, Elem: mt.Elem()}
+}
+
+func (ex *Exec) mapFind(st MapState, k *T, zero Value) (Value, *T) {
+	C := ex.C
+	val := zero
+	pres := C.False
+	for _, e := range st.E { // oldest first; newer entries override
+		hit := C.BAnd(e.Guard, C.Eq(e.Key, k))
+		if hit.IsConst() && hit.Val == 0 {
+			continue
+		}
+		pres = C.Ite(hit, e.Pres, pres)
+		val = ex.iteValue(hit, e.Val, val)
 	}
-	st.V = MapState{
-		Present: C.ConstArray(smt.Sort{AI: kw, AE: 0}, C.False),
-		Vals:    C.ConstArray(smt.Sort{AI: kw, AE: vw}, defv),
-		Count:   ex.k64(0),
-	}
-	return &MapV{KeyW: kw, ValW: vw, St: st}
+	// an absent key reads as the zero value
+	return ex.iteValue(pres, val, zero), pres
 }
 
 func (ex *Exec) mapLookup(m *MapV, key Value, mt types.Type) (Value, *T) {
@@ -349,12 +360,15 @@ func (ex *Exec) mapLookup(m *MapV, key Value, mt types.Type) (Value, *T) {
 	if m.Nil {
 		return ex.zero(et), ex.C.False
 	}
-	st := m.St.V.(MapState)
-	k := key.(*T)
-	pres := ex.C.Select(st.Present, k)
-	val := ex.C.Select(st.Vals, k)
-	z := ex.zero(et).(*T)
-	return ex.C.Ite(pres, val, z), pres
+	return ex.mapFind(m.St.V.(MapState), key.(*T), ex.zero(et))
+}
+
+func (ex *Exec) mapHas(m *MapV, k *T) *T {
+	if m.Nil {
+		return ex.C.False
+	}
+	_, p := ex.mapFind(m.St.V.(MapState), k, ex.zero(m.Elem))
+	return p
 }
 
 func (ex *Exec) mapUpdate(m *MapV, key, val Value, site string, _ func(*MapV)) {
@@ -364,8 +378,8 @@ func (ex *Exec) mapUpdate(m *MapV, key, val Value, site string, _ func(*MapV)) {
 	C := ex.C
 	st := m.St.V.(MapState)
 	k := key.(*T)
-	was := C.Select(st.Present, k)
-	ns := MapState{Present: C.Store(st.Present, k, C.True), Vals: C.Store(st.Vals, k, val.(*T))}
+	_, was := ex.mapFind(st, k, ex.zero(m.Elem))
+	ns := MapState{E: append(append([]MapEntry{}, st.E...), MapEntry{Guard: C.True, Key: k, Pres: C.True, Val: val})}
 	if st.Count != nil {
 		ns.Count = C.Ite(was, st.Count, C.Add(st.Count, ex.k64(1)))
 	}
@@ -379,10 +393,34 @@ func (ex *Exec) mapDelete(m *MapV, key Value) {
 	C := ex.C
 	st := m.St.V.(MapState)
 	k := key.(*T)
-	was := C.Select(st.Present, k)
-	ns := MapState{Present: C.Store(st.Present, k, C.False), Vals: st.Vals}
+	_, was := ex.mapFind(st, k, ex.zero(m.Elem))
+	ns := MapState{E: append(append([]MapEntry{}, st.E...), MapEntry{Guard: C.True, Key: k, Pres: C.False, Val: ex.zero(m.Elem)})}
 	if st.Count != nil {
 		ns.Count = C.Ite(was, C.Sub(st.Count, ex.k64(1)), st.Count)
 	}
 	ex.writeLeaf(m.St, ns)
+}
+
+// mergeMapStates: ite(c, a, b) on association lists sharing a common prefix.
+func (ex *Exec) mergeMapStates(c *T, a, b MapState) MapState {
+	C := ex.C
+	n := 0
+	for n < len(a.E) && n < len(b.E) && a.E[n].Guard == b.E[n].Guard && a.E[n].Key == b.E[n].Key && a.E[n].Pres == b.E[n].Pres && sameValue(a.E[n].Val, b.E[n].Val) {
+		n++
+	}
+	out := append([]MapEntry{}, a.E[:n]...)
+	for _, e := range a.E[n:] {
+		e.Guard = C.BAnd(e.Guard, c)
+		out = append(out, e)
+	}
+	nc := C.BNot(c)
+	for _, e := range b.E[n:] {
+		e.Guard = C.BAnd(e.Guard, nc)
+		out = append(out, e)
+	}
+	m := MapState{E: out}
+	if a.Count != nil && b.Count != nil {
+		m.Count = C.Ite(c, a.Count, b.Count)
+	}
+	return m
 }
